@@ -1380,6 +1380,21 @@ def _expected_loss(agent, cfg, batch, seed) -> Optional[float]:
             y = r + agent.gamma * (1 - d) * qn
             q = agent.actor(obs).gather(1, a)
             return float(torch.nn.functional.mse_loss(q, y))
+        if algo == "CQN":
+            obs = agent.preprocess_observation(batch["obs"])
+            nobs = agent.preprocess_observation(batch["next_obs"])
+            a = batch["action"].long()
+            a = a.unsqueeze(-1) if a.ndim == 1 else a
+            r, d = batch["reward"], batch["done"]
+            if agent.double:
+                idx = agent.actor(nobs).argmax(dim=1, keepdim=True)
+                qn = agent.actor_target(nobs).gather(1, idx)
+            else:
+                qn = agent.actor_target(nobs).max(dim=1, keepdim=True)[0]
+            y = r + agent.gamma * (1 - d) * qn
+            q_all = agent.actor(obs)
+            cql = torch.logsumexp(q_all, dim=1).mean() - q_all.mean()
+            return float(cql + 0.5 * torch.nn.functional.mse_loss(q_all.gather(1, a), y))
         if algo in ("DDPG", "TD3"):
             obs = agent.preprocess_observation(batch["obs"])
             nobs = agent.preprocess_observation(batch["next_obs"])
@@ -1438,7 +1453,7 @@ def run_c08(ctx: kernel.Ctx, case: Dict[str, Any]) -> None:
                 nb = A.make_batch(ag, cfg, kernel.derive(s, "n"), op["done"], batch_size=bs)
                 nb_t = A.make_batch(twin, cfg, kernel.derive(s, "n"), op["done"], batch_size=bs, noise_next_where_done=True)
             want_loss = None
-            if algo in ("DQN", "DDPG", "TD3"):
+            if algo in ("DQN", "CQN", "DDPG", "TD3"):
                 want_loss = _expected_loss(ag, cfg, batch, s)
             seed_all(s)
             if algo in ("DDPG", "TD3"):
@@ -1454,7 +1469,7 @@ def run_c08(ctx: kernel.Ctx, case: Dict[str, Any]) -> None:
             ctx.log("subject", "learn", {"j": j})
             # (2) loss value
             if want_loss is not None:
-                got = out if algo == "DQN" else out[1]
+                got = out if algo in ("DQN", "CQN") else out[1]
                 if got is not None and abs(float(got) - want_loss) > 1e-4 * max(1.0, abs(want_loss)):
                     ctx.report("C08/loss_value", f"op {oi} step {j}: learn() returned loss {float(got)!r}; the algorithm's loss with target r + gamma (1-done) Q_target(s') "
                                                  f"evaluated on the same networks and batch is {want_loss!r}", **w.loc)
